@@ -9,7 +9,7 @@ from ..cfg import build_cfg, calls_in, node_calls
 from ..core import Ctx, property_info, rule, share
 from ..exc import MayRaise
 from ..model import AnalysisError, ClassInfo, FuncInfo, Module, dotted_name, norm_text, walk_no_nested
-from ..q import leaves_at, tests_raw, callable_leaves, callable_body, sort_calls, reach_table, reach_env, value_texts, passes, func_text, names_from_calls, return_values, stores, unparse
+from ..q import callable_info, leaves_at, call_name_of, tests_raw, callable_leaves, callable_body, sort_calls, reach_table, reach_env, value_texts, passes, func_text, names_from_calls, return_values, stores, unparse
 
 CONV = "xsdata.formats.converter"
 ENUMS = "xsdata.models.enums"
@@ -120,6 +120,14 @@ def documented_priority(ctx: Ctx) -> None:
             # table lookup with 0 for unknown types: T.get(x, 0), or T[x] under `x in T` else 0
             ok = texts in ({"__PYTHON_TYPES_SORTED__.get(_,0)"}, {"__PYTHON_TYPES_SORTED__.get(_,default=0)"}) or (
                 texts == {"__PYTHON_TYPES_SORTED__[_]", "0"} and all(("_in__PYTHON_TYPES_SORTED__", True) in c for t, c in kl if t == "__PYTHON_TYPES_SORTED__[_]"))
+            if not ok and texts == {"__PYTHON_TYPES_SORTED__[_]", "0"}:
+                # EAFP form: try: return T[x] / except KeyError: return 0
+                ci_ = callable_info(ctx.repo, st, key)
+                if ci_ is not None:
+                    for tr in [x for x in ast.walk(ci_[0].node) if isinstance(x, ast.Try)]:
+                        in_body = any(isinstance(x, ast.Subscript) and unparse(x.value) == "__PYTHON_TYPES_SORTED__" for b in tr.body for x in ast.walk(b))
+                        handled = any(h.type is not None and unparse(h.type) in ("KeyError", "LookupError") and any(isinstance(x, ast.Constant) and x.value == 0 for b in h.body for x in ast.walk(b)) for h in tr.handlers)
+                        ok = ok or (in_body and handled)
     ctx.ob("sort_types sorts ascending by the table (unknown types first)", ok, at=st, construct="sort key", msg="sort key is not the priority table")
     # str is last: it accepts everything, so any type after it would be unreachable
     ctx.ob("str has the highest priority number (tried last)", bool(code_order) and code_order[-1] == "str", at=mod, node=table, construct="str last",
@@ -192,7 +200,7 @@ def _not_none_assert_on_parsed(fi: FuncInfo, node: ast.Assert) -> bool:
     derived: set[str] = set()
     last: set[str] = set()
     whole: set[str] = set()
-    for _ in range(3):
+    for _ in range(8):
         for st in walk_no_nested(fi.node):
             if isinstance(st, (ast.Assign, ast.AnnAssign)) and st.value is not None:
                 tgts = st.targets if isinstance(st, ast.Assign) else [st.target]
@@ -317,14 +325,18 @@ def converter_error_discipline(ctx: Ctx) -> None:
     sup = [w for w in walk_no_nested(de.node) if isinstance(w, ast.With) and "suppress(ConverterError)" in unparse(w.items[0].context_expr)]
     guarded = [w.body for w in sup] + [t.body for t in walk_no_nested(de.node) if isinstance(t, ast.Try) and t.handlers and all(h.type is not None and unparse(h.type) == "ConverterError" for h in t.handlers)
                                        and not any(isinstance(x, ast.Raise) for h in t.handlers for s_ in h.body for x in [s_, *walk_no_nested(s_)])]
-    ok = bool(guarded) and any(isinstance(r, ast.Return) for body in guarded for s in body for r in [s, *walk_no_nested(s)])
-    loops_ = [f for f in walk_no_nested(de.node) if isinstance(f, ast.For)]
-    in_loop = {id(x) for f in loops_ for x in ast.walk(f)}
-    final = [r for r in walk_no_nested(de.node) if isinstance(r, ast.Raise) and r.exc is not None and "ConverterError" in unparse(r.exc) and id(r) not in in_loop]
+    gde = build_cfg(de.node)
+    # the candidate's result is returned: a return whose value comes from a deserialize call made inside the guarded block
+    guarded_calls = {id(c) for body in guarded for s in body for c in calls_in(s) if call_name_of(c) == "deserialize"}
+    ok = bool(guarded) and any(any(id(leaf) in guarded_calls for leaf in leaves_at(de, r, r.ast.value)) for r in gde.returns() if r.ast.value is not None)
+    # when the candidates are exhausted (the loop's normal exit, a for/else included) ConverterError is raised
+    done = [m for f in gde.nodes if f.kind == "for" for m, lab in gde.succ[f.id] if lab == "done"]
+    after = gde.reachable(done, blocked=[f.id for f in gde.nodes if f.kind == "for"]) if done else set()
+    final = [n for n in gde.stmts() if n.id in after and isinstance(n.ast, ast.Raise) and n.ast.exc is not None and "ConverterError" in unparse(n.ast.exc)]
     ctx.ob("ConverterFactory.deserialize tries each candidate with ConverterError (only) suppressed and raises ConverterError when none matched",
            ok and bool(final), at=de, construct="factory loop", msg="candidate loop changed")
     loop = [f for f in walk_no_nested(de.node) if isinstance(f, ast.For)]
-    ctx.ob("candidates are tried in the given (sorted) order", bool(loop) and unparse(loop[0].iter) == "types", at=de, construct="loop order", msg="iteration order over candidate types changed")
+    ctx.ob("candidates are tried in the given (sorted) order", bool(loop) and "types" in value_texts(de, loop[0], loop[0].iter), at=de, construct="loop order", msg="iteration order over candidate types changed")
 
 
 # ---------------------------------------------------------------------------- whitespace taint
